@@ -104,6 +104,18 @@ Definition dyn_slice (lo hi : option bnd) (v : jv) : res jv :=
 Definition dyn_seq (v : jv) : res (list jv) :=
   match v with JArr l => Ok l | JStr s => Ok (map (fun ch => JStr [ch]) s) | _ => Err EType end.
 
+(** a dynamic value used where the translated callee takes a str (a key obtained by iterating a dictionary) *)
+Definition dyn_as_str (v : jv) : res str := match v with JStr s => Ok s | _ => Err EType end.
+
+(** [v.extend(y)] on a value read from the state: only a list has the method (AttributeError otherwise); the argument is
+    iterated (TypeError when it is not a list or a str).  The result is the extended list; the translation stores it back
+    under the key the list was read from (Python changes the stored list in place). *)
+Definition dyn_extend (v y : jv) : res jv :=
+  match v with
+  | JArr l => match dyn_iter y with Ok ys => Ok (JArr (l ++ ys)) | Err e => Err e end
+  | _ => Err EAttr
+  end.
+
 (** [v[lo:hi:step]], step a non-negative int: 0 is ValueError *)
 Definition dyn_slice_step (lo hi : option bnd) (step : nat) (v : jv) : res jv :=
   if Nat.eqb step 0 then (match v with JArr _ | JStr _ => Err EValue | _ => Err EType end) else
@@ -131,6 +143,13 @@ Definition dyn_set2 (st : jv) (a b k : str) (v : jv) : res jv :=
   | JObj o, JObj bo, JObj d => Ok (JObj (jset a (JObj (jset b (JObj (jset k v d)) bo)) o))
   | _, _, _ => Err EType
   end.
+(** [st[a][b] = v]: a whole class dictionary is replaced (KeyError when st[a] does not exist) *)
+Definition dyn_setc2 (st : jv) (a b : str) (v : jv) : res jv :=
+  do x <- dyn_getitem st a;
+  match st, x with
+  | JObj o, JObj bo => Ok (JObj (jset a (JObj (jset b v bo)) o))
+  | _, _ => Err EType
+  end.
 Definition dyn_del2 (st : jv) (a b k : str) : res jv :=
   do x <- dyn_getitem st a; do y <- dyn_getitem x b;
   match st, x, y with
@@ -151,3 +170,6 @@ Fixpoint py_set {A} (eqb : A -> A -> bool) (l : list A) : list A :=
   end.
 Definition py_subset {A} (eqb : A -> A -> bool) (a b : list A) : bool := forallb (fun x => existsb (eqb x) b) a.
 Definition py_inter {A} (eqb : A -> A -> bool) (a b : list A) : list A := filter (fun x => existsb (eqb x) b) a.
+(** [a - b] on sets.  The order in which Python iterates a set is not modelled: a set is the list of its elements in order of
+    first insertion, and what is computed from a set is compared with the code up to that order. *)
+Definition py_diff {A} (eqb : A -> A -> bool) (a b : list A) : list A := filter (fun x => negb (existsb (eqb x) b)) a.
